@@ -1,4 +1,5 @@
 import Glas.Model.TextCmd
+import Glas.Model.SyntaxCmd
 /-! The executable model behind a one-line-in, one-line-out protocol (tab-separated fields). -/
 open Glas
 
@@ -6,7 +7,10 @@ def dispatch (line : String) : String :=
   let args := line.splitOn "\t"
   match TextCmd.run args with
   | some r => r
-  | none => "bad-op"
+  | none =>
+    match SyntaxCmd.run args with
+    | some r => r
+    | none => "bad-op"
 
 partial def loop (h : IO.FS.Stream) (out : IO.FS.Stream) : IO Unit := do
   let line ← h.getLine
